@@ -1245,3 +1245,125 @@ Section Fast.
     - apply fast_multiply_gen_spec; assumption.
   Qed.
 End Fast.
+
+(* ------------------------------------------------------------------ the same-field NTT family: multiply, fast_square,
+   square, fast_pow, batch_multiply, par_batch_multiply (C06 hypotheses as in Section Fast) *)
+Section FastSame.
+  Context {F K : Type} (o : fops F) (fk : fieldK K) (ok : F -> Prop) (den : F -> K).
+  Hypothesis H : field_ok o fk ok den.
+  Variable ntt : list F -> option (list F).
+  Variable intt : list F -> option (list F).
+  Variable lmax : nat.
+  Variable wr : nat -> K.
+  Hypothesis ntt_is_dft : forall l x, (l <= lmax)%nat -> length x = (2 ^ l)%nat -> Forall ok x ->
+    exists y, ntt x = Some y /\ Forall ok y /\ length y = length x /\ map den y = dft fk (wr l) (map den x).
+  Hypothesis intt_is_idft : forall l x, (l <= lmax)%nat -> length x = (2 ^ l)%nat -> Forall ok x ->
+    exists y, intt x = Some y /\ Forall ok y /\ length y = length x /\ map den y = idft fk (wr l) (map den x).
+  Hypothesis wr_half_root : forall l, (l <= lmax)%nat -> half_root fk (wr l) l.
+  Hypothesis wr_nonzero : forall l, (l <= lmax)%nat -> wr l <> k0 fk.
+  Hypothesis two_nz : two_neq_0 fk.
+  Local Notation D := (map den).
+  Local Notation okl := (Forall ok).
+  Local Notation peq := (peq fk).
+  Local Notation pmul := (pmul fk).
+  Local Notation pprod := (pprod fk).
+  Local Notation repr := (repr o fk ok den).
+
+  Theorem multiply_spec a b : okl a -> okl b -> (poly_degree o a + poly_degree o b + 1 <= 2 ^ Z.of_nat lmax)%Z ->
+    exists r, poly_multiply o ntt intt a b = Some r /\ okl r /\
+              (zlen r <= Z.max 0 (poly_degree o a + poly_degree o b + 1))%Z /\ peq (D r) (pmul (D a) (D b)).
+  Proof.
+    intros Ha Hb Hsz. unfold poly_multiply.
+    exact (multiply_gen_spec o o o fk ok ok ok den den den H H H (fmul o) (Hmul_same o fk ok den H) ntt ntt intt lmax wr
+             ntt_is_dft ntt_is_dft intt_is_idft wr_half_root wr_nonzero two_nz a b Ha Hb Hsz).
+  Qed.
+  Theorem fast_multiply_spec a b : okl a -> okl b -> (poly_degree o a + poly_degree o b + 1 <= 2 ^ Z.of_nat lmax)%Z ->
+    exists r, poly_fast_multiply o ntt intt a b = Some r /\ okl r /\
+              (zlen r <= Z.max 0 (poly_degree o a + poly_degree o b + 1))%Z /\ peq (D r) (pmul (D a) (D b)).
+  Proof.
+    intros Ha Hb Hsz. unfold poly_fast_multiply.
+    exact (fast_multiply_gen_spec o o o fk ok ok ok den den den H H H (fmul o) (Hmul_same o fk ok den H) ntt ntt intt lmax wr
+             ntt_is_dft ntt_is_dft intt_is_idft wr_half_root wr_nonzero two_nz a b Ha Hb Hsz).
+  Qed.
+
+  (* fast_square is fast_multiply of the operand with itself, up to the constant special case *)
+  Theorem fast_square_spec l : okl l -> (2 * poly_degree o l + 1 <= 2 ^ Z.of_nat lmax)%Z ->
+    exists r, poly_fast_square o ntt intt l = Some r /\ repr (pmul (D l) (D l)) r.
+  Proof.
+    intros Hl Hsz. unfold poly_fast_square.
+    destruct (poly_degree o l =? -1)%Z eqn:E1.
+    - apply Z.eqb_eq in E1. exists []. split; [reflexivity|]. apply repr_nil. apply pmul_pzero_l.
+      apply (degree_neg_pzero o fk ok den H l Hl). lia.
+    - apply Z.eqb_neq in E1. pose proof (degree_ge o l) as G.
+      destruct (poly_degree o l =? 0)%Z eqn:E0.
+      + apply Z.eqb_eq in E0. pose proof (degree_lt_len o l) as LL.
+        destruct (idx_lookup l 0 ltac:(lia)) as [c [C1 C2]]. rewrite C1. eexists. split; [reflexivity|].
+        pose proof (nth_error_ok ok l _ c Hl C2) as Hc.
+        destruct (fo_mul _ _ _ _ H c c Hc Hc) as [M1 M2]. split; [constructor; [exact M1|constructor]|].
+        assert (EL : peq (D l) [den c]).
+        { apply peq_intro. intros [|i].
+          - rewrite (coeff_D den fk l 0). change (Z.to_nat 0) with O in C2. rewrite C2. reflexivity.
+          - rewrite (coeff_above_pdeg fk (D l)); [rewrite coeff_cons_S, coeff_nil; reflexivity|].
+            rewrite <- (degree_pdeg o fk ok den H l Hl). lia. }
+        cbn [map]. rewrite EL, M2. apply peq_intro. intros [|i].
+        * rewrite coeff_pmul_cons, !coeff_cons_0. rewrite (Radd_0_l (F_R (kFT fk))) || idtac.
+          transitivity (kadd fk (kmul fk (den c) (den c)) (k0 fk)); [|reflexivity].
+          rewrite (Radd_comm (F_R (kFT fk))), (Radd_0_l (F_R (kFT fk))). reflexivity.
+        * rewrite coeff_pmul_cons, !coeff_cons_S, !coeff_nil, coeff_pmul_nil.
+          rewrite (Rmul_comm (F_R (kFT fk))).
+          transitivity (kadd fk (k0 fk) (k0 fk)); [rewrite (Radd_0_l (F_R (kFT fk))); reflexivity|].
+          f_equal. symmetry. rewrite (Rmul_comm (F_R (kFT fk))).
+          pose proof (Rmul_0_l (Rsth := Eqsth K) (Eq_ext (kadd fk) (kmul fk) (kopp fk)) (F_R (kFT fk)) (den c)) as Z0. exact Z0.
+      + apply Z.eqb_neq in E0.
+        (* the remaining code is literally fast_multiply l l *)
+        destruct (fast_multiply_spec l l Hl Hl ltac:(lia)) as [r [R1 [R2 [R3 R4]]]].
+        unfold poly_fast_multiply, poly_fast_multiply_gen in R1.
+        destruct (poly_degree o l + poly_degree o l <? 0)%Z eqn:E2; [apply Z.ltb_lt in E2; lia|].
+        replace (2 * poly_degree o l)%Z with (poly_degree o l + poly_degree o l)%Z by lia.
+        destruct (ntt (resize l (next_pow2 (poly_degree o l + poly_degree o l + 1)) (fzero o))) as [c|]; [|discriminate].
+        replace (map (fun e => fmul o e e) c) with (map2 (fmul o) c c).
+        * destruct (intt (map2 (fmul o) c c)) as [h|]; [|discriminate]. injection R1 as <-. eexists. split; [reflexivity|].
+          split; assumption.
+        * clear. induction c as [|x c IH]; [reflexivity|]. cbn [map2 map]. rewrite IH. reflexivity.
+  Qed.
+  (* square after the repair: both arms *)
+  Theorem square_v1_spec l : okl l -> (2 * poly_degree o l + 1 <= 2 ^ Z.of_nat lmax)%Z ->
+    exists r, poly_square_v1 o ntt intt l = Some r /\ repr (pmul (D l) (D l)) r.
+  Proof.
+    intros Hl Hsz. destruct (Z_le_gt_dec (poly_degree o l * 2 + 1) SQUARE_FAST_CUTOFF_LEN) as [L|G].
+    - destruct (square_v1_slow_arm o fk ok den H ntt intt l Hl L) as [r [R1 R2]]. exists r. split; [exact R1|].
+      apply (good_repr o fk ok den). exact R2.
+    - unfold poly_square_v1. destruct (poly_degree o l =? -1)%Z eqn:E1.
+      + apply Z.eqb_eq in E1. exists []. split; [reflexivity|]. apply repr_nil. apply pmul_pzero_l.
+        apply (degree_neg_pzero o fk ok den H l Hl). lia.
+      + destruct (poly_degree o l * 2 + 1 >? SQUARE_FAST_CUTOFF_LEN)%Z eqn:E2; [|apply Z.gtb_ltb in E2; apply Z.ltb_ge in E2; lia].
+        apply fast_square_spec; assumption.
+  Qed.
+
+  (* batch products with the dispatching multiply: B = 2^lmax bounds the total stored length *)
+  Lemma multiply_Hmult a b : okl a -> okl b -> (zlen a + zlen b <= 2 ^ Z.of_nat lmax)%Z ->
+    exists r, poly_multiply o ntt intt a b = Some r /\ okl r /\ (zlen r <= zlen a + zlen b)%Z /\ peq (D r) (pmul (D a) (D b)).
+  Proof.
+    intros Ha Hb Hsz. pose proof (degree_lt_len o a). pose proof (degree_lt_len o b).
+    pose proof (zlen_nonneg a). pose proof (zlen_nonneg b).
+    destruct (multiply_spec a b Ha Hb ltac:(lia)) as [r [R1 [R2 [R3 R4]]]]. exists r. split; [exact R1|]. split; [exact R2|].
+    split; [lia|exact R4].
+  Qed.
+  Theorem batch_multiply_spec ps : Forall okl ps -> (total_len ps <= 2 ^ Z.of_nat lmax)%Z ->
+    exists r, poly_batch_multiply o ntt intt ps = Some r /\ okl r /\ peq (D r) (pprod (map D ps)).
+  Proof.
+    intros Hok Hb. unfold poly_batch_multiply.
+    destruct (batch_multiply_with_spec o fk ok den H _ _ multiply_Hmult ps Hok Hb) as [r [R1 [R2 [_ R4]]]].
+    exists r. split; [exact R1|]. split; assumption.
+  Qed.
+  (* for every thread count nt >= 1 *)
+  Theorem par_batch_multiply_spec nt ps : (1 <= nt)%Z -> Forall okl ps -> (total_len ps <= 2 ^ Z.of_nat lmax)%Z ->
+    exists r, poly_par_batch_multiply o ntt intt nt ps = Some r /\ okl r /\ peq (D r) (pprod (map D ps)).
+  Proof.
+    intros Hnt Hok Hb. unfold poly_par_batch_multiply.
+    apply (par_batch_multiply_with_spec o fk ok den H (2 ^ Z.of_nat lmax)%Z); try assumption.
+    intros qs Hne Hq Hqb. unfold poly_batch_multiply.
+    destruct (batch_multiply_with_spec o fk ok den H _ _ multiply_Hmult qs Hq Hqb) as [r [R1 [R2 [R3 R4]]]].
+    exists r. split; [exact R1|]. split; [exact R2|]. split; [exact (R3 Hne)|exact R4].
+  Qed.
+End FastSame.
